@@ -1,8 +1,10 @@
-"""C05 — streams end cleanly on early stop or failure.  DESIGN §5 C05."""
+"""C05 — streams end cleanly on early stop or failure.  DESIGN §5 C05.
+Two mechanisms, two models: fifo_stream/parmap (Model/Fifo.lean) and Buffer/AsyncBuffer/SyncIter (Model/Buffer.lean)."""
 import core
+import scen_buffer
 import scen_fifo
 
-PROPS = ['Props/C05.lean']
+PROPS = ['Props/C05.lean', 'Props/C05Buffer.lean']
 
 
 def keyfn(case, res, m):
@@ -11,32 +13,40 @@ def keyfn(case, res, m):
 
 def run(chk):
     chk.audit(PROPS)
-    n = 1500 if chk.tier == 'quick' else 40000
+    n = 1200 if chk.tier == 'quick' else 30000
     core.e1_flow(chk, 'scen_fifo', 'fifo', {'C05'},
                  lambda rng: scen_fifo.gen_case(rng, chk.tier, rng.choice(['stop', 'stop', '', 'lookahead'])),
                  n, keyfn=keyfn)
-    chk.cov['rule'] = ('cases = random (kind, n, cap, conc, flags, failure plan, stop position, service durations, '
-                       'chooser, seed) run on the real fifo_stream/Stream.parmap under the deterministic scheduler; '
-                       'non-trivial = n >= 2 elements and >= 1 context switch; distinct = distinct (case, event trace)')
+    core.e1_flow(chk, 'scen_buffer', 'buffer', {'C05'},
+                 lambda rng: scen_buffer.gen_case(rng, chk.tier, rng.choice(['stop','stop',''])),
+                 n, keyfn=keyfn)
+    chk.cov['rule'] = ('cases = random (kind in fifo_stream / Stream.parmap / Stream.buffer / AsyncBuffer / SyncIter, n, '
+                       'capacity / concurrency / maxsize, flags, failure plan incl. StopRequested, stop position and mode '
+                       '(close, del+gc), service durations, chooser, seed) run on the real code under the deterministic '
+                       'scheduler; non-trivial = n >= 2 elements and >= 1 context switch; distinct = distinct (case, event trace)')
     chk.trusted += TRUSTED
     chk.assumptions += ASSUMPTIONS
 
 
 TRUSTED = [
     'Lean 4.33.0 kernel; axioms per theorem as listed in coverage.obligation_list (subset of propext, Classical.choice, Quot.sound)',
-    'hand-written model lean/MpsVerif/Model/Fifo.lean, tied to /repo by trace validation (drv fifo, Core.Val.validate_sound) on every run',
-    'deterministic scheduler harness/detsched.py (replaces threading primitives, SimpleQueue, clock)',
-    'modelled not verified: SingleLane is FIFO with maxsize slots; ThreadPoolExecutor runs <= max_workers calls and cancel() succeeds only before pick-up; Future.result() returns the call\'s own outcome',
-    "executor='process' is not driven by the scheduler (OS schedule); covered by the theorem only, plus the repo's own tests",
+    'hand-written models lean/MpsVerif/Model/Fifo.lean and Model/Buffer.lean, tied to /repo by trace validation (drv fifo / drv buffer, Core.Val.validate_sound) on every run',
+    'deterministic scheduler harness/detsched.py (replaces threading primitives, SimpleQueue, clock) and harness/cooploop.py (asyncio selector wait as a cooperative wait)',
+    'modelled not verified: SingleLane / queue.Queue are FIFO with maxsize slots; ThreadPoolExecutor runs <= max_workers calls, cancel() succeeds only before pick-up; Future.result() returns the call\'s own outcome; Thread.is_alive()/join()',
+    'SyncIter is validated against the Buffer model with maxsize 2 (its worker drains the queue itself instead of queueing an end mark after a stop; indistinguishable at the observed events)',
+    "executor='process' and process-backed pools are not driven by the scheduler; covered by the theorem only, plus the repo's own tests",
+    'the timed-out poll of the repaired drain loop is a stutter step; liveness assumes the worker thread keeps being scheduled (fairness)',
 ]
 ASSUMPTIONS = [
     'the correspondence was checked on the schedules explored in this run only; the theorems quantify over all schedules of the model',
+    'garbage-collection-triggered close is exercised as del + gc.collect()',
 ]
 
 
 def replay(chk, data):
     import json
-    res = chk.run_cases('scen_fifo', [data['case']])
+    scen = 'scen_buffer' if data['case']['kind'] in ('buffer', 'asyncbuffer', 'synciter') else 'scen_fifo'
+    res = chk.run_cases(scen, [data['case']])
     case, r = res[0]
     hits = [m for m in r['monitors'] if m['prop'] == chk.prop]
     print(json.dumps(dict(monitors=r['monitors'], out=r.get('out'), end=r.get('end')), default=str)[:2000])
